@@ -15,8 +15,10 @@ from harness.common import exc_name, canon, jdump
 
 PID = "C03"
 TITLE = "Split.run follows its documented block/branch schedule for every branch mix"
-LEAN_MODULES = ["LenaModel.Props.C03"]
-LEAN_SOURCES = ["LenaModel/Model/C03.lean", "LenaModel/Lemmas/C03.lean", "LenaModel/Props/C03.lean"]
+LEAN_MODULES = ["LenaModel.Props.C03", "LenaModel.Props.C03X", "LenaModel.Props.C03Zip"]
+LEAN_SOURCES = ["LenaModel/Model/C03.lean", "LenaModel/Lemmas/C03.lean", "LenaModel/Props/C03.lean",
+                "LenaModel/Model/C03X.lean", "LenaModel/Lemmas/C03X.lean", "LenaModel/Props/C03X.lean",
+                "LenaModel/Model/C03Zip.lean", "LenaModel/Props/C03Zip.lean"]
 DRIVER = "drivers/C03.lean"
 THEOREMS = [
     "Lena.C03.loop_refines_spec",
@@ -35,6 +37,7 @@ THEOREMS = [
     "Lena.C03.branchTrace_sequence",
     "Lena.C03.branchTrace_fillCompute",
     "Lena.C03.branchTrace_fillRequest",
+    "Lena.C03.branchTrace_closedForm",
     "Lena.C03.stopfill_dropped_life",
     "Lena.C03.stopfill_dropped",
     "Lena.C03.empty_flow_once",
@@ -70,6 +73,24 @@ THEOREMS = [
     "Lena.C03.tuple_fill_compute",
     "Lena.C03.tuple_fill_request",
     "Lena.C03.tuple_sequence",
+    # part 2 (Props/C03X.lean): the objects after the run, exceptions of branches, bufsize arguments
+    "Lena.C03.runFull_trace",
+    "Lena.C03.runFull_seqs",
+    "Lena.C03.runObj_eq",
+    "Lena.C03.runX_prefix",
+    "Lena.C03.runX_bad_bufsize",
+    "Lena.C03.bufArgInit_valid",
+    "Lena.C03.branch_receives_prefix",
+    "Lena.C03.sequence_receives_all",
+    "Lena.C03.split_branch_receives",
+    "Lena.C03.run_outputs_blockwise",
+    "Lena.C03.run_twice",
+    "Lena.C03.splitRunOps_run",
+    # part 3 (Props/C03Zip.lean): Zip on values with context (context algebra: Lena.C07.zip_context)
+    "Lena.C03.zip_ctx_ith",
+    "Lena.C03.zip_ctx_length",
+    "Lena.C03.zip_value_lossless",
+    "Lena.C03.zipFields_list_arity",
 ]
 CASE_TIMEOUT = 10
 
@@ -254,7 +275,7 @@ def _mk_nest(sp, tag, log):
     inner = [_wrap(isp, el) for isp, el in zip(sp["inner"], inner_els)]
     ns = lc.Split(inner, bufsize=sp.get("bufsize", 1000))
     ns.harness_inner = inner_els
-    ns.state = lambda: {"inner": [el.state() for el in inner_els]}
+    ns.state = lambda: {"inner": [_state_of(el) for el in inner_els]}
     if hasattr(ns, "fill"):
         orig_fill = ns.fill
 
@@ -344,6 +365,20 @@ def _build(specs, log):
 
 
 def _inv(log, n):
+    """per branch: the method invocations it received"""
+    return [[ev for (t, ev) in log if t == i and ev[0] != "out"] for i in range(n)]
+
+
+def _owner(v):
+    """the branch a yielded value belongs to, from its tag (elements of a nested Split carry 100*(tag+1)+j)"""
+    t = _tag_of(canon(v))
+    if t is None:
+        return None
+    return t // 100 - 1 if t >= 100 else t
+
+
+def _ptrace(log, n):
+    """per branch: its invocations and the values yielded for it, in order"""
     return [[ev for (t, ev) in log if t == i] for i in range(n)]
 
 
@@ -568,6 +603,57 @@ def _rand_runx(rng, maxbr, maxn):
     return {"op": "runx", "brs": brs, "flows": flows, "bufarg": bufarg, "copy_buf": rng.random() < 0.5}
 
 
+ZKEYS = ["a", "b", "zip"]  # sorted key alphabet of the contexts of zipctx cases; "zip" is key number 2
+
+
+def _rand_ctx(rng, depth=2):
+    d = {}
+    for k in ZKEYS:
+        r = rng.random()
+        if k == "zip" and r < 0.85:
+            continue
+        if r < 0.45:
+            continue
+        if r < 0.8 or depth <= 1:
+            d[k] = rng.choice([0, 1, 1, 2])
+        else:
+            d[k] = _rand_ctx(rng, depth - 1)
+    return d
+
+
+def _mut_ctx(rng, d):
+    d = {k: (dict(v) if isinstance(v, dict) else v) for k, v in d.items()}
+    for _ in range(rng.randint(0, 2)):
+        k = rng.choice(ZKEYS[:2])
+        r = rng.random()
+        if r < 0.3:
+            d.pop(k, None)
+        elif r < 0.7:
+            d[k] = rng.choice([0, 1, 2])
+        else:
+            d[k] = _rand_ctx(rng, 1)
+    return d
+
+
+def _rand_zipctx(rng):
+    """Zip over canned results that carry contexts; `fields` in every form"""
+    nseq = rng.randint(1, 3)
+    base = [_rand_ctx(rng) for _ in range(4)]
+    results = []
+    for s in range(nseq):
+        ln = rng.choice([0, 1, 2, 2, 3])
+        results.append([{"d": 10 * s + i, "c": ({} if rng.random() < 0.2 else _mut_ctx(rng, base[i]))}
+                        for i in range(ln)])
+    r = rng.random()
+    if r < 0.5:
+        fields = None
+    elif r < 0.8:
+        fields = {"list": nseq if rng.random() < 0.8 else rng.choice([0, 1, 2, 3, 4])}
+    else:
+        fields = {"str": nseq if rng.random() < 0.7 else rng.choice([0, 1, 2, 3, 4])}
+    return {"op": "zipctx", "results": results, "fields": fields, "kind": rng.choice(["fc", "fr"])}
+
+
 def _rand_blocks(rng, maxn):
     flow = _rand_flow(rng, maxn)
     blocks, i = [], 0
@@ -665,12 +751,6 @@ def _init_cases(rng, tier):
                                                    for _ in range(rng.randint(0, 4))]})
         cases.append({"op": "init", "objs": objs, "bufsize": rng.choice([None, None, 1, 2, 1000, 0, -1]),
                       "is_list": rng.random() < 0.9})
-    # repr(FillRequestSeq(...)) raises AttributeError in lena (its __init__ never sets `_name`), and the message of
-    # the "seqs must be a list" error formats its argument: not a statement of C03 (reported separately), so a
-    # FillRequestSeq is not put into a non-list argument
-    for c in cases:
-        if not c["is_list"]:
-            c["objs"] = [({"t": "fcseq"} if o["t"] == "frseq" else o) for o in c["objs"]]
     return cases
 
 
@@ -698,13 +778,13 @@ def gen_cases(ctx):
     import random
     if ctx.tier == "quick":
         exh = {0: 3, 1: 3, 2: 3, 3: 2, 4: 2}
-        n_run, n_meth, n_zip, n_runx = 900, 500, 400, 900
+        n_run, n_meth, n_zip, n_runx, n_zctx = 900, 500, 400, 900, 400
         maxbr, maxn = 4, 8
     else:
         # the property's quantifier for N = 4: every branch list of length 0..4 over the four kinds, every
         # bufsize, both copy_buf, every stop index (lists of length 4 on flows of length 0..3; 0..3 on length 4)
         exh = {0: 4, 1: 4, 2: 4, 3: 4, 4: 3}
-        n_run, n_meth, n_zip, n_runx = 30000, 8000, 6000, 20000
+        n_run, n_meth, n_zip, n_runx, n_zctx = 30000, 8000, 6000, 20000, 8000
         maxbr, maxn = 5, 8
     ctx.exhaustive = False  # the random part is sampled
 
@@ -717,6 +797,7 @@ def gen_cases(ctx):
         _repeat(n_meth, _rand_methods, sub(), 4, 7),
         _repeat(n_zip, _rand_zip, sub(), 4, 7),
         _repeat(n_runx, _rand_runx, sub(), maxbr, 6),
+        _repeat(n_zctx, _rand_zipctx, sub()),
         _init_cases(sub(), ctx.tier),
     ]
     return _roundrobin(streams)
@@ -737,9 +818,10 @@ def _run_split(specs, flow, bufsize, copy_buf):
     try:
         for v in s.run(iter(flow)):
             out.append(v)
+            log.append((_owner(v), ["out", v]))
     except Exception as e:
         return {"e": exc_name(e), "phase": "run", "out": canon(out), "inv": canon(_inv(log, len(specs)))}
-    return {"out": canon(out), "inv": canon(_inv(log, len(specs)))}
+    return {"out": canon(out), "inv": canon(_inv(log, len(specs))), "ptrace": canon(_ptrace(log, len(specs)))}
 
 
 def _py_bufarg(a):
@@ -856,6 +938,23 @@ def _methods_impl(case):
         return {"e": exc_name(e), "phase": "methods"}
     # the same branches driven by Split.run on the same flow (for "with the same meaning")
     res["run"] = _run_split(specs, flow, None, True)
+    # each element filled alone with the whole flow (reference for Lean `Accepts` / `filled`)
+    import lena.core as lc
+    acc, st = [], []
+    log2 = []
+    for i, sp in enumerate(specs):
+        el = _mk_el(sp, i, log2)
+        ok = True
+        if hasattr(el, "fill"):
+            for x in flow:
+                try:
+                    el.fill(x)
+                except lc.LenaStopFill:
+                    ok = False
+                    break
+        acc.append(ok)
+        st.append(canon(_state_of(el)))
+    res["accepts"], res["filled"] = acc, st
     return res
 
 
@@ -901,11 +1000,97 @@ def _zip_impl(case):
                 break
         if hasattr(z, "compute"):
             r = list(z.compute())
+            r2 = list(z.compute())
         else:
             r = list(z.request())
+            r2 = list(z.request())
     except Exception as e:
         return {"e": exc_name(e), "phase": "use"}
-    return {"stopped": stopped, "r": canon(r)}
+    res = {"stopped": stopped, "r": canon(r), "r2": canon(r2)}
+    if not case.get("ctx"):
+        # independent reference for the columns: the same elements, filled alone
+        log2 = []
+        els = [_mk_el(sp, i, log2) for i, sp in enumerate(specs)]
+        _ref_fill_all(els, flow)
+        results = [canon(list(el.compute() if hasattr(el, "compute") else el.request())) for el in els]
+        maxlen = max([len(x) for x in results] + [0])
+        res["cols"] = [([x[i] for x in results] if all(len(x) > i for x in results) else None)
+                       for i in range(maxlen + 1)]
+    return res
+
+
+def _enc_ctx(d):
+    """a context as the array of its slots over ZKEYS (null = key absent); a non-dict leaf as it is"""
+    if not isinstance(d, dict):
+        return d
+    return [(_enc_ctx(d[k]) if k in d else None) for k in ZKEYS]
+
+
+class _Canned(object):
+    """a fill/compute or fill/request element whose results are given"""
+
+    def __init__(self, items, kind):
+        self._items, self.resets = items, 0
+        if kind == "fc":
+            self.compute = self._gen
+        else:
+            self.request = self._gen
+
+    def fill(self, val):
+        pass
+
+    def reset(self):
+        self.resets += 1
+
+    def _gen(self):
+        import copy
+        for it in self._items:
+            yield (it["d"], copy.deepcopy(it["c"])) if it["c"] else it["d"]
+
+
+def _fields_py(f):
+    if f is None:
+        return []
+    names = ["f%d" % i for i in range(f.get("list", f.get("str")))]
+    return names if "list" in f else " ".join(names)
+
+
+def _zipctx_impl(case):
+    import lena.flow
+    els = [_Canned(r, case["kind"]) for r in case["results"]]
+    try:
+        z = lena.flow.Zip(els, name="zipnt", fields=_fields_py(case["fields"]))
+    except Exception as e:
+        return {"init": {"e": exc_name(e)}}
+    res, raised = [], None
+    try:
+        z.fill(0)
+        gen = z.compute() if case["kind"] == "fc" else z.request()
+        for val in gen:
+            if isinstance(val, tuple) and len(val) == 2 and isinstance(val[1], dict):
+                data, ctx = val
+                bare = False
+            else:
+                data, ctx, bare = val, {}, True
+            zp = ctx.get("zip")
+            item = {"data": canon(list(data)), "bare": bare, "is_namedtuple": hasattr(data, "_fields")}
+            if isinstance(zp, tuple):
+                item["zip"] = [_enc_ctx(x) for x in zp]
+                item["common"] = _enc_ctx({k: v for k, v in ctx.items() if k != "zip"})
+            else:
+                item["zip"] = None
+                item["common"] = _enc_ctx(ctx)
+            res.append(item)
+    except Exception as e:
+        raised = exc_name(e)
+    out = {"r": res, "raised": raised}
+    if case["kind"] == "fr":
+        try:
+            z.reset()
+            out["resets"] = [el.resets for el in els]
+        except Exception as e:
+            out["resets"] = {"e": exc_name(e)}
+    return out
 
 
 def _caps_el(caps):
@@ -965,6 +1150,10 @@ def _init_impl(case):
                         "methods": m}
     except Exception as e:
         res["split"] = {"e": exc_name(e)}
+    import lena.core.check_sequence_type as ct
+    objs = [_mk_obj(o) for o in case["objs"]]
+    res["is_fc_seq"] = [bool(ct.is_fill_compute_seq(o)) for o in objs]
+    res["is_fr_seq"] = [bool(ct.is_fill_request_seq(o)) for o in objs]
     objs = [_mk_obj(o) for o in case["objs"]]
     try:
         z = lena.flow.Zip(objs)
@@ -983,6 +1172,8 @@ def run_impl(case):
         return _methods_impl(case)
     if op == "runx":
         return _runx_impl(case)
+    if op == "zipctx":
+        return _zipctx_impl(case)
     if op == "zip":
         return _zip_impl(case)
     if op == "init":
@@ -1011,6 +1202,10 @@ def model_requests(case):
                  "bufsizes": case["bufsizes"], "copy_buf": case["copy_buf"]}]
     if op == "methods":
         return [{"op": "methods", "brs": [_mspec(s) for s in case["brs"]], "blocks": case["blocks"]}]
+    if op == "zipctx":
+        return [{"op": "zipctx", "n": len(ZKEYS), "zk": ZKEYS.index("zip"), "fields": case["fields"],
+                 "kind": case["kind"],
+                 "results": [[{"d": it["d"], "c": _enc_ctx(it["c"])} for it in r] for r in case["results"]]}]
     if op == "runx":
         return [{"op": "runx", "brs": [_mspecx(s) for s in case["brs"]], "flows": case["flows"],
                  "bufarg": case["bufarg"], "copy_buf": case["copy_buf"]}]
@@ -1054,7 +1249,39 @@ def _cmp_run(specs, r, m, what, flow=None, bufsize=None):
         minv = _seen_by_element(sp, m["inv"][i])
         if r["inv"][i] != minv:
             return f"{what}: branch {i} was invoked {r['inv'][i]} vs model {minv}"
+    # the specification side, definition by definition, against the real code
+    if "spec_fold" in m and m["spec_fold"] != r["out"]:
+        return f"{what}: impl yields {r['out']} vs Lean `Split.runSpec` {m['spec_fold']}"
+    for i, sp in enumerate(specs):
+        if "ptrace" not in m or "ptrace" not in r or not _attributable(sp):
+            continue
+        mine = r["ptrace"][i]
+        for name in ("ptrace", "pspec", "pbranch"):
+            got = _seen_by_element(sp, m[name][i])
+            if got != mine:
+                lean = {"ptrace": "proj (Split.runTrace)", "pspec": "closedForm", "pbranch": "branchTrace"}[name]
+                return f"{what}: what happens to branch {i} ({_show(sp)}): impl {mine} vs Lean `{lean}` {got}"
+        if m["pout"][i] != [ev[1] for ev in mine if ev[0] == "out"]:
+            return f"{what}: values yielded for branch {i}: impl {[ev[1] for ev in mine if ev[0] == 'out']} vs Lean `outputsOf` {m['pout'][i]}"
+        recv = [x for ev in mine for x in ([ev[1]] if ev[0] == "fill" else ev[1] if ev[0] == "run" else [])]
+        mrecv = [(_pre(x) if _has_pre(sp) else x) for x in m["precv"][i]]
+        if mrecv != recv:
+            return f"{what}: values given to branch {i}: impl {recv} vs Lean `received` {mrecv}"
+        if m.get("pempty") is not None and _seen_by_element(sp, m["pempty"][i]) != mine:
+            return f"{what}: empty flow, branch {i}: impl {mine} vs Lean `invocationOf :: outs resultOf` {m['pempty'][i]}"
+        for j, ev in enumerate(mine):
+            if ev[0] == "fill" and ev[2] and (j + 1 >= len(mine) or mine[j + 1] != m["finaliser"][i]):
+                return f"{what}: branch {i}: after the stopping fill comes {mine[j + 1:j + 2]}, Lean `finaliser` is {m['finaliser'][i]}"
     return None
+
+
+def _attributable(sp):
+    """the values yielded for this branch can be recognised by their tags, and its calls are logged"""
+    if _is_lam(sp) or sp["k"] == "sum":
+        return False
+    if sp["k"] == "nest":
+        return all(isp["k"] != "sum" for isp in sp["inner"])
+    return True
 
 
 def _seen_by_element(sp, inv):
@@ -1116,6 +1343,16 @@ def _cmp_runx(case, res, m):
         ms = _strip_lam_states(specs, mr["states"])
         if r["states"] != ms:
             return f"{what}: objects afterwards: impl {r['states']} vs model {ms}"
+    if m.get("forget_out") is not None and res["runs"] and res["runs"][0]["term"] != ["raised", None, "Other:ValueError"]:
+        # Lean `SplitX.forget`: the same branches with their exceptions forgotten yield a continuation of what
+        # the real run yielded before the exception (the whole of it when the run ended normally)
+        r0, fo = res["runs"][0], m["forget_out"]
+        if fo[:len(r0["out"])] != r0["out"] or (r0["term"] == "done" and fo != r0["out"]):
+            return f"first run: impl yields {r0['out']} ({r0['term']}); Lean `SplitX.forget` schedule {fo}"
+    if m.get("spec_states") is not None and res["runs"] and res["runs"][0]["term"] == "done":
+        ms = _strip_lam_states(specs, m["spec_states"])
+        if res["runs"][0]["states"] != ms:
+            return f"objects after the first run: impl {res['runs'][0]['states']} vs Lean `objAfter` {ms}"
     if m.get("obj_runs") is not None:
         outs = [r["out"] for r in res["runs"]]
         if outs != m["obj_runs"][:len(outs)]:
@@ -1136,6 +1373,16 @@ def compare(case, res, replies):
         return None
     if op == "runx":
         return _cmp_runx(case, res, m)
+    if op == "zipctx":
+        if "init" in res or "init" in m:
+            a, b = res.get("init", {}).get("e"), m.get("init", {}).get("e")
+            return None if a == b else f"construction: impl {res.get('init')} vs model {m.get('init')}"
+        got = [{k: v for k, v in it.items() if k != "is_namedtuple"} for it in res["r"]]
+        if got != m["r"]:
+            return f"impl yields {got} vs model {m['r']}"
+        if (res["raised"] == "Other:TypeError") != m["raised"] or res["raised"] not in (None, "Other:TypeError"):
+            return f"impl ended with {res['raised']} vs model raised={m['raised']}"
+        return None
     if op == "methods":
         if "e" in res:
             return f"impl raised {res}; model {jdump(m)[:300]}"
@@ -1144,6 +1391,12 @@ def compare(case, res, replies):
         for k in ("call", "fc", "fr"):
             if res[k] != m[k]:
                 return f"{k}: impl {res[k]} vs model {m[k]}"
+        if "accepts" in m and res.get("accepts") is not None:
+            if m["accepts"] != res["accepts"]:
+                return f"Lean `Accepts` {m['accepts']} vs the elements filled alone {res['accepts']}"
+            for a, ms, rs in zip(res["accepts"], m["filled"], res["filled"]):
+                if a and rs is not None and ms != rs:
+                    return f"Lean `filled` {ms} vs the element filled alone {rs}"
         return None
     if op == "zip":
         if "e" in res or "e" in m:
@@ -1152,8 +1405,17 @@ def compare(case, res, replies):
             return None
         if res["stopped"] != m["stopped"] or res["r"] != m["r"]:
             return f"impl {res} vs model {m}"
+        if not case.get("ctx") and res.get("r2") != m.get("r2"):
+            return f"second compute()/request() of the same Zip: impl {res.get('r2')} vs model {m.get('r2')}"
+        # Lean `colAt i` (specification side of zip_ith) against Python's columns of the result lists
+        ref_cols = res.get("cols")
+        if ref_cols is not None and m.get("cols") != ref_cols:
+            return f"Lean `colAt` gives {m.get('cols')}, the columns of the result lists are {ref_cols}"
         return None
     if op == "init":
+        for k in ("is_fc_seq", "is_fr_seq"):
+            if res[k] != m[k]:
+                return f"check_sequence_type.{k.replace('is_fc', 'is_fill_compute').replace('is_fr', 'is_fill_request')}: impl {res[k]} vs model {m[k]}"
         for k in ("split", "zip"):
             a, b = res[k], m[k]
             if "e" in a or "e" in b:
@@ -1372,6 +1634,8 @@ def _oracle_zip(case, res):
     stopped = _ref_fill_all(els, flow)
     results = [list(el.compute() if common == "fill_compute" else el.request()) for el in els]
     exp = canon([list(t) for t in zip(*results)])
+    results2 = [list(el.compute() if common == "fill_compute" else el.request()) for el in els]
+    exp2 = canon([list(t) for t in zip(*results2)])
     if case.get("ctx"):
         # results with context: the data part of the i-th value is the tuple of the data parts
         got = res["r"]
@@ -1381,8 +1645,69 @@ def _oracle_zip(case, res):
             return (f"[zip-ith] {what} (results with context) filled with {flow} yields {got}; the data parts must "
                     f"be the tuples of the i-th data {exp} (stopped={stopped})")
         return None
+    if "r2" in res and res["r2"] != exp2:
+        return f"[zip-again] {what}: a second compute()/request() yields {res['r2']}; the tuples of the i-th results of a second call are {exp2}"
     if res["stopped"] != stopped or res["r"] != exp:
         return f"[zip-ith] {what} filled with {flow} yields {res['r']} (stopped={res['stopped']}); the tuples of the i-th results are {exp} (stopped={stopped})"
+    return None
+
+
+def _dec_ctx(e):
+    if not isinstance(e, list):
+        return e
+    return {k: _dec_ctx(v) for k, v in zip(ZKEYS, e) if v is not None}
+
+
+def _upd_rec(d, o):
+    """reference update_recursively on plain dicts"""
+    d = dict(d)
+    for k, v in o.items():
+        if isinstance(v, dict) and isinstance(d.get(k), dict):
+            d[k] = _upd_rec(d[k], v)
+        else:
+            d[k] = v
+    return d
+
+
+def _oracle_zipctx(case, res):
+    """'yields the tuples of their i-th results', for results with context: the data is the tuple of the i-th data
+    (a namedtuple when fields were given), up to the shortest, and every i-th context is recoverable from the
+    yielded context (common part updated with its entry of context.zip)"""
+    results, f = case["results"], case["fields"]
+    what = f"Zip over results {results} (fields={_fields_py(f)!r})"
+    nseq = len(results)
+    nf = 0 if f is None else f.get("list", f.get("str"))
+    if "init" in res:
+        if f is not None and "list" in f and nf not in (0, nseq) and res["init"]["e"] == "LenaTypeError":
+            return None
+        return f"[zip-raised] {what} raised {res['init']['e']} at construction"
+    if f is not None and "list" in f and nf not in (0, nseq):
+        return f"[zip-init] {what}: fields of another length than the sequences must be rejected (LenaTypeError)"
+    if nf not in (0, nseq):
+        return None  # a string of fields of another length: undefined by the documentation (model only)
+    n = min(len(r) for r in results)
+    got = res["r"]
+    if res["raised"] is not None:
+        # TypeError is the code's answer to contexts that already contain "zip" in their common part
+        common_has_zip = any(all("zip" in r[i]["c"] for r in results) for i in range(n))
+        if res["raised"] == "Other:TypeError" and common_has_zip:
+            return None
+        return f"[zip-raised] {what} raised {res['raised']} after {len(got)} values"
+    if len(got) != n:
+        return f"[zip-ith] {what} yields {len(got)} values, the shortest sequence has {n} results"
+    for i, g in enumerate(got):
+        if g["data"] != [r[i]["d"] for r in results]:
+            return f"[zip-ith] {what}: value {i} has data {g['data']}, the tuple of the i-th data is {[r[i]['d'] for r in results]}"
+        if bool(nf) != g["is_namedtuple"]:
+            return f"[zip-fields] {what}: value {i} is{'' if g['is_namedtuple'] else ' not'} a namedtuple"
+        common = _dec_ctx(g["common"])
+        for jx, r in enumerate(results):
+            rec = common if g["zip"] is None else _upd_rec(common, _dec_ctx(g["zip"][jx]))
+            if rec != r[i]["c"]:
+                return (f"[zip-context] {what}: value {i} has context common={common}, zip={g['zip'] and [_dec_ctx(x) for x in g['zip']]}; "
+                        f"the context of sequence {jx} recovered from it is {rec}, it was {r[i]['c']}")
+    if "resets" in res and res["resets"] != [1] * nseq:
+        return f"[zip-reset] {what}: reset() must reset every sequence once, got {res['resets']}"
     return None
 
 
@@ -1447,6 +1772,8 @@ def oracle(case, res):
         return _oracle_methods(case, res)
     if op == "runx":
         return _oracle_runx(case, res)
+    if op == "zipctx":
+        return _oracle_zipctx(case, res)
     if op == "zip":
         return _oracle_zip(case, res)
     if op == "init":
@@ -1479,6 +1806,8 @@ def nontrivial(case, res):
         return len(case["brs"]) >= 2 and any(r.get("out") for r in res["runs"])
     if op == "runx":
         return "init" in res or any(r["out"] or r["term"] != "done" for r in res["runs"])
+    if op == "zipctx":
+        return "init" in res or bool(res["r"]) or res["raised"] is not None
     if op == "methods":
         return bool(res.get("fc") or res.get("fr") or (isinstance(res.get("call"), list) and res["call"]))
     if op == "zip":
@@ -1500,6 +1829,12 @@ def classify(case, res):
         forms = set(sp.get("form", "el") for sp in case["brs"])
         labels += [f"form:{f}" for f in sorted(forms)]
         return labels
+    if op == "zipctx":
+        if "init" in res:
+            return ["zipctx:init-" + res["init"]["e"]]
+        return ["zipctx:" + ("raised" if res["raised"] else "ok"),
+                "zipctx:fields=" + ("none" if case["fields"] is None else list(case["fields"])[0]),
+                "zipctx:zip-key-set" if any(g["zip"] is not None for g in res["r"]) else "zipctx:no-zip-key"]
     if op == "runx":
         if "init" in res:
             return ["runx:init-" + res["init"]["e"]]
@@ -1595,6 +1930,17 @@ def shrink(case):
                     yield dict(case, brs=brs[:i] + [dict(sp, **{k: v})] + brs[i + 1:])
             if isinstance(sp.get("stop"), int) and sp["stop"] > 0:
                 yield dict(case, brs=brs[:i] + [dict(sp, stop=sp["stop"] - 1)] + brs[i + 1:])
+    if op == "zipctx":
+        rs = case["results"]
+        for i in range(len(rs)):
+            if len(rs) > 1:
+                yield dict(case, results=rs[:i] + rs[i + 1:])
+            for j in range(len(rs[i])):
+                yield dict(case, results=rs[:i] + [rs[i][:j] + rs[i][j + 1:]] + rs[i + 1:])
+                if rs[i][j]["c"]:
+                    yield dict(case, results=rs[:i] + [rs[i][:j] + [dict(rs[i][j], c={})] + rs[i][j + 1:]] + rs[i + 1:])
+        if case["fields"] is not None:
+            yield dict(case, fields=None)
     if op == "init":
         objs = case["objs"]
         for i in range(len(objs)):
